@@ -207,3 +207,60 @@ def run(chk, repo):
                    key=wm.qual + f'::insert-if-absent::{key_}', fn=wm.qual)
     order_sorted = any(isinstance(l, ast.For) and unparse(l.iter) == 'sorted(self.order, key=lambda x: self.order[x])' for l in walk_no_nested(wm.node))
     chk.ob('C18.g', 'patterns are expanded in priority order', wm.where, order_sorted, 'wildcard patterns are not expanded in source-order priority', key=wm.qual + '::priority-order', fn=wm.qual)
+
+    # ------------------------------------------------------------------ h
+    chk.rule('C18.h', 'source-level lists are really sorted before the priority comparison; no discarded pure results in the label code', 3)
+    ti = repo.func('aa.VariantPeptideLabel:VariantSourceSet.to_int')
+    chk.uses(ti)
+    tcfg = CFG(ti.node)
+    bad = None
+    n_ret = 0
+    for pth in tcfg.paths(tcfg.entry, max_paths=2000):
+        if pth.end_kind() != 'return':
+            continue
+        last = tcfg.nodes[pth.steps[-1][0]]
+        if not (isinstance(last.ast, ast.Return) and isinstance(last.ast.value, ast.Name)):
+            bad = bad or (pth, 'return value is not a plain name')
+            continue
+        if pth.facts.known('sort') is False:
+            continue
+        n_ret += 1
+        x = last.ast.value.id
+        state = 'unsorted'
+        for nd in pth.nodes():
+            a = nd.ast
+            if nd.kind != 'stmt':
+                continue
+            if isinstance(a, ast.Expr) and unparse(a.value) == f"{x}.sort()":
+                state = 'sorted'
+            elif isinstance(a, (ast.Assign, ast.AnnAssign)) and x in G.assigned_names(a):
+                v = a.value
+                state = 'sorted' if isinstance(v, ast.Call) and call_name(v) == 'sorted' else 'unsorted'
+        if state != 'sorted':
+            bad = bad or (pth, f"`{x}` is returned without having been sorted")
+    chk.paths += n_ret
+    chk.ob('C18.h', f"to_int(sort=True): on every path the returned list was sorted last ({n_ret} paths)", ti.where, n_ret > 0 and bad is None,
+           (bad[1] if bad else 'no return path') + ': VariantSourceSet.__gt__ compares these lists lexicographically, so an unsorted list (set iteration order; '
+           'differs from numeric order once a level >= 8 is present) ranks a source set wrongly and the peptide goes to the wrong database / summary row',
+           key=ti.qual + '::sorted', path=bad[0].describe(ti.module.relpath) if bad else None, fn=ti.qual)
+    gt_ = repo.func('aa.VariantPeptideLabel:VariantSourceSet.__gt__')
+    chk.uses(gt_)
+    tcalls = G.find_calls(gt_.node, 'to_int')
+    okc = bool(tcalls) and all(kwarg(c, 'sort') is None and not c.args or (kwarg(c, 'sort') is not None and unparse(kwarg(c, 'sort')) == 'True') for c in tcalls)
+    chk.ob('C18.h', '__gt__ compares sorted level lists', gt_.where, okc, 'the comparison asks for unsorted level lists', key=gt_.qual + '::sorted-levels', fn=gt_.qual)
+    hits = []
+    nfun = 0
+    for f_ in repo.funcs_in('aa.VariantPeptideLabel', 'aa.PeptidePoolSplitter', 'aa.PeptidePoolSummarizer', 'aa.VariantPeptideIdentifier'):
+        nfun += 1
+        chk.uses(f_)
+        hits += [f"{repo.loc(f_, h[0])}: {h[1]}" for h in G.discarded_pure(f_.node)]
+    import textwrap
+    if not G.discarded_pure(ast.parse(textwrap.dedent("""
+        def f(x):
+            sorted(x)
+            return x
+    """)).body[0]):
+        raise AnalysisError('R-DISCARD positive control did not fire')
+    chk.ob('C18.h', f"R-DISCARD: no side-effect-free result is computed and dropped in the label / split / summary code ({nfun} functions)",
+           'moPepGen/aa/VariantPeptideLabel.py:1', not hits, f"{hits}: the statement has no effect (e.g. `sorted(x)` instead of `x.sort()`)",
+           key='aa.label::discarded-pure')
